@@ -1,8 +1,121 @@
+(* C14 - Id allocator / deposit box: live ids unique, one taker wins, stale ids never match.
+   Only statements; proofs are `exact <lemma of ID/IDProofs.v>`.
+
+   Reach c progs s = "s is reachable from the initial state of the client programs `progs` (one list of
+   allocate / deallocate / emplace / take_released / finish_released calls per thread) under SOME schedule", one
+   step = one atomic operation of id_allocator.hpp / deposit_box.h - so every theorem below is quantified over all
+   programs, all thread counts and all interleavings, including a pop racing with pop-push-pop of the same value.
+   Thread ids: a thread is born by its first allocate (thread_local constructor) and dies by its deallocate
+   (destructor); all birth/death orders are schedules of programs [OAlloc; ...; OFree 0].
+
+   Hypotheses, and what `_partial` means here.  c = (tail, vmod): tail = FREE_LIST_TAIL, vmod = modulus of the
+   version arithmetic.  Every `_partial` theorem assumes
+     vmod c = 0          versions do not wrap, and
+     nv <= ACTIVE_FLAG   fewer values were minted than the value type can name besides its two sentinels
+                         (65534 for ThreadId - the documented limit).
+   With the real 16-bit version the FULL statement (no value has two owners, for all interleavings) is FALSE:
+   c14_unique_owner_refuted gives the programs and the schedule (an allocate stalled between its loads and its CAS
+   across exactly 65536 pushes); the harness replays exactly this schedule on the real IdAllocator<uint16_t> on every
+   run (known finding version-wrap-aba-u16).  What is missing between the two: the conditional theorem for the wrapped
+   model ("if fewer than vmod pushes happen between any allocate's head load and its CAS then ...") is not proved; the
+   unbounded-version theorems are its instance for windows that never wrap.  For the deposit box (32-bit slot
+   versions, 2^32 reuses of one slot needed) the wrap is likewise excluded by vmod c = 0 and not refuted by witness.
+   Not modelled: for_each's grouping into ranges, ConcurrentVector growth, _next_value overflow. *)
 From Coq Require Import ZArith List Bool.
 Require Import Verif.Gen.Gen_id_allocator Verif.Conc.Machine Verif.ID.IDModel Verif.ID.IDProofs.
 Import ListNotations.
 Local Open Scope Z_scope.
 
+(* No value has two owners: the values on the free list, kept by a thread, taken from the box, sitting in the box or
+   in transit inside an allocate/deallocate/emplace call are pairwise distinct - in every reachable state. *)
+Theorem c14_unique_owner_partial : forall c progs s, vmod c = 0 -> Reach c progs s -> nv (sh s) <= ACTc c ->
+  NoDup (fl (sh s) ++ owners s).
+Proof. exact id_unique_owner. Qed.
+Print Assumptions c14_unique_owner_partial.
+
+(* ... in particular the ids clients hold at any moment are distinct and none of them is on the free list *)
+Theorem c14_held_ids_unique_partial : forall c progs s, vmod c = 0 -> Reach c progs s -> nv (sh s) <= ACTc c ->
+  NoDup (held_values s) /\ (forall v, In v (held_values s) -> ~ In v (fl (sh s))).
+Proof. exact id_held_unique. Qed.
+Print Assumptions c14_held_ids_unique_partial.
+
+(* ABA: whenever a thread's pop CAS is about to succeed (head value AND version equal what it loaded), the link it
+   loaded earlier is the current link of the current top - whatever pops and pushes happened in between *)
+Theorem c14_pop_cas_never_stale_partial : forall c progs s t th cv ck nx, vmod c = 0 -> Reach c progs s ->
+  nv (sh s) <= ACTc c -> nth_error (threads s) t = Some th -> tpc th = ACas cv ck nx ->
+  hv (sh s) = cv -> hk (sh s) = ck -> getz (nxt (sh s)) cv = nx /\ exists r, fl (sh s) = cv :: r.
+Proof. exact id_pop_cas_current. Qed.
+Print Assumptions c14_pop_cas_never_stale_partial.
+
+(* the same statement for the real 16-bit version is false *)
+Theorem c14_unique_owner_refuted :
+  exists progs sch, let s := run st (step c16) (init c16 progs) sch in
+    nv (sh s) <= ACTc c16 /\ ~ NoDup (held_values s).
+Proof. exact id_unique_owner_refuted. Qed.
+Print Assumptions c14_unique_owner_refuted.
+
+(* an allocate that runs alone while the free list is not empty returns its top and mints nothing *)
+Theorem c14_reuse_when_quiet_partial : forall c progs s t th x rest r, vmod c = 0 -> Reach c progs s ->
+  nv (sh s) <= ACTc c -> nth_error (threads s) t = Some th -> tpc th = Idle -> prog th = OAlloc :: r ->
+  fl (sh s) = x :: rest ->
+  let s' := run st (step c) s [t; t; t; t] in
+  nv (sh s') = nv (sh s) /\ fl (sh s') = rest /\
+  exists th', nth_error (threads s') t = Some th' /\ tpc th' = Idle /\ prog th' = r /\
+              held th' = (x, hk (sh s)) :: held th /\ results th' = RId x (hk (sh s)) :: results th.
+Proof. exact id_reuse_when_quiet. Qed.
+Print Assumptions c14_reuse_when_quiet_partial.
+
+(* for_each at quiescence (no call in progress) reports exactly the values clients hold *)
+Theorem c14_for_each_exact_partial : forall c progs s, vmod c = 0 -> Reach c progs s -> nv (sh s) <= ACTc c ->
+  quiescent s = true -> forall v, In v (live c (sh s)) <-> In v (held_values s).
+Proof. exact id_for_each_exact. Qed.
+Print Assumptions c14_for_each_exact_partial.
+
+(* thread ids: two different threads never own the same value, whatever the order of births and deaths *)
+Theorem c14_thread_ids_partial : forall c progs s t1 t2 th1 th2 v, vmod c = 0 -> Reach c progs s ->
+  nv (sh s) <= ACTc c -> t1 <> t2 -> nth_error (threads s) t1 = Some th1 -> nth_error (threads s) t2 = Some th2 ->
+  In v (owned_thread th1) -> In v (owned_thread th2) -> False.
+Proof. exact id_threads_disjoint. Qed.
+Print Assumptions c14_thread_ids_partial.
+
+(* deposit box: no id is won twice (wins records every successful take), and no take of an issued id ever failed
+   while nobody had won it (miss) - so among any number of takes of one id exactly one obtains the item *)
+Theorem c14_one_taker_partial : forall c progs s, vmod c = 0 -> Reach c progs s -> nv (sh s) <= ACTc c ->
+  NoDup (wins (sh s)) /\ miss (sh s) = false.
+Proof. exact id_one_taker. Qed.
+Print Assumptions c14_one_taker_partial.
+
+(* every id handed out by emplace is either already won or still in the box with its slot version matching *)
+Theorem c14_issued_id_matches_until_taken_partial : forall c progs s i, vmod c = 0 -> Reach c progs s ->
+  nv (sh s) <= ACTc c -> In i (ids (sh s)) ->
+  In i (wins (sh s)) \/ (In i (boxed (sh s)) /\ getz (sver (sh s)) (fst i) = snd i).
+Proof. exact id_issued_won_or_boxed. Qed.
+Print Assumptions c14_issued_id_matches_until_taken_partial.
+
+(* an id whose item was taken never matches its slot again, however the execution continues and however often the
+   slot is reused: the slot version stays strictly above the id's version *)
+Theorem c14_stale_never_matches_partial : forall c progs s v k sch, vmod c = 0 -> Reach c progs s ->
+  In (v, k) (wins (sh s)) ->
+  let s2 := run st (step c) s sch in nv (sh s2) <= ACTc c -> k < getz (sver (sh s2)) v.
+Proof. exact id_stale_never_matches. Qed.
+Print Assumptions c14_stale_never_matches_partial.
+
+(* the memory orders the argument relies on are the ones in the source (regenerated site tables): head loads
+   acquire, pop CAS acq_rel, push CAS release/acquire, take is a strong CAS *)
 Theorem c14_memory_order_obligations : orders_ok = true.
 Proof. exact id_orders_ok. Qed.
 Print Assumptions c14_memory_order_obligations.
+
+(* non-vacuity *)
+Example c14_cas_pending_example : exists s th, Reach cU ex_progs s /\ nv (sh s) <= ACTc cU /\
+  nth_error (threads s) 1 = Some th /\ tpc th = ACas 0 2 1 /\ hv (sh s) = 0 /\ hk (sh s) = 2 /\ fl (sh s) = [0; 1].
+Proof. exact id_example_cas_pending. Qed.
+Example c14_aba_example : exists s th, Reach cU ex_progs s /\
+  nth_error (threads s) 1 = Some th /\ tpc th = ACas 0 2 1 /\ hv (sh s) = 0 /\ hk (sh s) = 3 /\
+  getz (nxt (sh s)) 0 = 65535 /\ held_values s = [1].
+Proof. exact id_example_aba. Qed.
+Example c14_reused_slot_example : exists s, Reach cU ex_box s /\ nv (sh s) <= ACTc cU /\ quiescent s = true /\
+  ids (sh s) = [(0, 0); (0, 1)] /\ wins (sh s) = [(0, 0)] /\ boxed (sh s) = [(0, 1)] /\ live cU (sh s) = [0].
+Proof. exact id_example_box. Qed.
+Example c14_wrap_needs_exactly_65536 : nodupb (held_values (wrap_final (Z.to_nat 65534))) = true.
+Proof. exact id_wrap_control. Qed.
